@@ -14,6 +14,8 @@ static std::map<std::string, hz::PropFn> registry() {
 
 int main(int argc, char **argv) {
   if (argc < 2) { fprintf(stderr, "usage\n"); return 2; }
+  signal(SIGPIPE, SIG_IGN);   // a child that exits before reading all of its stdin must not kill the worker
+  for (int fd = 0; fd < 3; fd++) if (fcntl(fd, F_GETFD) == -1) { int n = open("/dev/null", O_RDWR); (void)n; }   // a closed standard descriptor would be reused by pipe()
   std::string cmd = argv[1];
   if (cmd == "decode") {
     std::vector<uint8_t> b; for (int i = 2; i < argc; i++) b.push_back((uint8_t)strtol(argv[i], nullptr, 16));
